@@ -19,6 +19,7 @@ def localStep (cfg : Cfg) (s : St) (j : Nat) (a : Act) (q : Part) : Part :=
   | .truncate p k => if p = j then truncPart k q else q
   | .poll => pollPart cfg.maxBatch s.resetLatest (if cfg.refresh then discoverPart q else q)
   | .complete p i => if p = j then completePart i q else q
+  | .fail p i => if p = j then failPart i q else q
   | .restart => restartPart (decide (j < cfg.npartCfg.getD s.parts.length)) q
 
 theorem step_get_some (cfg : Cfg) (s : St) (a : Act) (j : Nat) (q : Part) (h : s.parts[j]? = some q) :
@@ -47,6 +48,84 @@ theorem map_rng_modify (l : List Batch) (i : Nat) :
     cases i with
     | zero => simp [List.modify, rng]
     | succ n => simp [List.modify_succ_cons, ih]
+
+theorem map_rng_modify_failed (l : List Batch) (i : Nat) :
+    (l.modify i (fun b => { b with failed := true })).map rng = l.map rng := by
+  induction l generalizing i with
+  | nil => simp
+  | cons x xs ih =>
+    cases i with
+    | zero => simp [List.modify, rng]
+    | succ n => simp [List.modify_succ_cons, ih]
+
+theorem fail_low (i : Nat) (q : Part) : (failPart i q).low = q.low := by
+  unfold failPart; split; split; rfl; rfl; rfl
+theorem fail_high (i : Nat) (q : Part) : (failPart i q).high = q.high := by
+  unfold failPart; split; split; rfl; rfl; rfl
+theorem fail_pos (i : Nat) (q : Part) : (failPart i q).pos = q.pos := by
+  unfold failPart; split; split; rfl; rfl; rfl
+theorem fail_known (i : Nat) (q : Part) : (failPart i q).known = q.known := by
+  unfold failPart; split; split; rfl; rfl; rfl
+theorem fail_committed (i : Nat) (q : Part) : (failPart i q).committed = q.committed := by
+  unfold failPart; split; split; rfl; rfl; rfl
+theorem fail_ranges (i : Nat) (q : Part) : (failPart i q).ranges = q.ranges := by
+  unfold failPart
+  split
+  · split
+    · rfl
+    · simp [Part.ranges, map_rng_modify_failed]
+  · rfl
+theorem fail_length (i : Nat) (q : Part) : (failPart i q).batches.length = q.batches.length := by
+  unfold failPart; split; split; rfl; simp; rfl
+theorem fail_nil (i : Nat) (q : Part) : (failPart i q).batches = [] ↔ q.batches = [] := by
+  have := fail_length i q
+  constructor
+  · intro h; rw [h] at this; exact List.eq_nil_of_length_eq_zero this.symm
+  · intro h; rw [h] at this; exact List.eq_nil_of_length_eq_zero this
+/-- Marking a batch as failed changes neither its range nor its `done` flag. -/
+theorem fail_get (i : Nat) (q : Part) (k : Nat) :
+    (failPart i q).batches[k]? = (q.batches[k]?).map (fun b =>
+      if i = k ∧ b.done = false then { b with failed := true } else b) := by
+  unfold failPart
+  cases hi : q.batches[i]? with
+  | none =>
+    simp only
+    cases hk : q.batches[k]? with
+    | none => rfl
+    | some b =>
+      by_cases hik : i = k
+      · subst hik; rw [hi] at hk; cases hk
+      · simp [hik]
+  | some bi =>
+    simp only
+    split
+    · rename_i hd
+      cases hk : q.batches[k]? with
+      | none => rfl
+      | some b =>
+        by_cases hik : i = k
+        · subst hik; rw [hi] at hk; cases hk; simp [hd]
+        · simp [hik]
+    · rename_i hd
+      simp only [List.getElem?_modify]
+      cases hk : q.batches[k]? with
+      | none => rfl
+      | some b =>
+        by_cases hik : i = k
+        · subst hik; rw [hi] at hk; cases hk; simp [hd]
+        · simp [hik]
+
+theorem fail_get_some {i : Nat} {q : Part} {k : Nat} {b' : Batch} (h : (failPart i q).batches[k]? = some b') :
+    ∃ b, q.batches[k]? = some b ∧ b'.lo = b.lo ∧ b'.hi = b.hi ∧ b'.done = b.done := by
+  rw [fail_get] at h
+  cases hk : q.batches[k]? with
+  | none => rw [hk] at h; simp at h
+  | some b =>
+    rw [hk] at h
+    simp only [Option.map_some, Option.some.injEq] at h
+    refine ⟨b, rfl, ?_⟩
+    subst h
+    split <;> simp
 
 def Chain (low : Int) : List (Int × Int) → Prop
   | [] => True
@@ -79,21 +158,23 @@ structure WF (mb : Nat) (q : Part) : Prop where
   bounds : ∀ r ∈ q.ranges, 0 ≤ r.1 ∧ r.1 ≤ r.2 ∧ r.2 < q.high ∧ r.2 - r.1 + 1 ≤ mb
   last : ∀ r, q.ranges.getLast? = some r → r.2 + 1 = q.pos
   chain : Chain q.low q.ranges
+  /-- a batch whose handling raised is never done -/
+  nf : ∀ b ∈ q.batches, b.failed = true → b.done = false
 
 theorem wf_fresh (mb : Nat) : WF mb freshPart := by
-  refine ⟨?_, ?_, ?_, ?_, ?_, ?_, ?_, ?_⟩ <;> simp [freshPart, Part.ranges, Chain]
+  refine ⟨?_, ?_, ?_, ?_, ?_, ?_, ?_, ?_, ?_⟩ <;> simp [freshPart, Part.ranges, Chain]
 
 theorem wf_produce {mb : Nat} {q : Part} (k : Nat) (h : WF mb q) : WF mb (producePart k q) := by
-  obtain ⟨h1, h2, h3, h4, h5, h6, h7, h8⟩ := h
-  refine ⟨h1, ?_, ?_, ?_, h5, ?_, h7, h8⟩
+  obtain ⟨h1, h2, h3, h4, h5, h6, h7, h8, h9⟩ := h
+  refine ⟨h1, ?_, ?_, ?_, h5, ?_, h7, h8, h9⟩
   · simp [producePart]; omega
   · simp [producePart]; omega
   · simp [producePart]; omega
   · intro r hr; have := h6 r hr; simp [producePart]; omega
 
 theorem wf_trunc {mb : Nat} {q : Part} (k : Nat) (h : WF mb q) : WF mb (truncPart k q) := by
-  obtain ⟨h1, h2, h3, h4, h5, h6, h7, h8⟩ := h
-  refine ⟨?_, ?_, h3, h4, h5, h6, h7, ?_⟩
+  obtain ⟨h1, h2, h3, h4, h5, h6, h7, h8, h9⟩ := h
+  refine ⟨?_, ?_, h3, h4, h5, h6, h7, ?_, h9⟩
   · simp [truncPart]; omega
   · simp [truncPart]; omega
   · exact chain_mono (by simp [truncPart]; omega) h8
@@ -104,12 +185,12 @@ theorem wf_discover {mb : Nat} {q : Part} (h : WF mb q) : WF mb (discoverPart q)
   · exact h
   · rename_i hk
     have hb := h.unk (by simpa using hk)
-    obtain ⟨h1, h2, h3, h4, h5, h6, h7, h8⟩ := h
-    refine ⟨h1, h2, h3, h3, ?_, ?_, ?_, ?_⟩ <;> simp [Part.ranges, hb, Chain]
+    obtain ⟨h1, h2, h3, h4, h5, h6, h7, h8, h9⟩ := h
+    refine ⟨h1, h2, h3, h3, ?_, ?_, ?_, ?_, ?_⟩ <;> simp [Part.ranges, hb, Chain]
 
 theorem wf_restart {mb : Nat} {q : Part} (kn : Bool) (h : WF mb q) : WF mb (restartPart kn q) := by
-  obtain ⟨h1, h2, h3, h4, h5, h6, h7, h8⟩ := h
-  refine ⟨h1, h2, h3, h3, ?_, ?_, ?_, ?_⟩ <;> simp [restartPart, Part.ranges, Chain]
+  obtain ⟨h1, h2, h3, h4, h5, h6, h7, h8, h9⟩ := h
+  refine ⟨h1, h2, h3, h3, ?_, ?_, ?_, ?_, ?_⟩ <;> simp [restartPart, Part.ranges, Chain]
 
 theorem wf_complete {mb : Nat} {q : Part} (i : Nat) (h : WF mb q) : WF mb (completePart i q) := by
   unfold completePart
@@ -117,16 +198,30 @@ theorem wf_complete {mb : Nat} {q : Part} (i : Nat) (h : WF mb q) : WF mb (compl
   · rename_i b hb
     split
     · exact h
-    · obtain ⟨h1, h2, h3, h4, h5, h6, h7, h8⟩ := h
+    · rename_i hdf
+      obtain ⟨h1, h2, h3, h4, h5, h6, h7, h8, h9⟩ := h
       have hm : rng b ∈ q.ranges := List.mem_map_of_mem (List.mem_of_getElem? hb)
       have := h6 _ hm
       simp [rng] at this
-      refine ⟨h1, h2, ?_, h4, ?_, ?_, ?_, ?_⟩
+      refine ⟨h1, h2, ?_, h4, ?_, ?_, ?_, ?_, ?_⟩
       · right; simp; omega
       · intro hk; have := h5 hk; simp [this] at hb
       · simpa [Part.ranges, map_rng_modify] using h6
       · simpa [Part.ranges, map_rng_modify] using h7
       · simpa [Part.ranges, map_rng_modify] using h8
+      · intro b' hb' hf'
+        obtain ⟨k, hk⟩ := List.getElem?_of_mem hb'
+        simp only [List.getElem?_modify] at hk
+        cases hqk : q.batches[k]? with
+        | none => rw [hqk] at hk; simp at hk
+        | some bk =>
+          rw [hqk] at hk
+          by_cases hik : i = k
+          · subst hik; rw [hb] at hqk; cases hqk
+            simp at hk; subst hk
+            simp at hf'; simp [hf'] at hdf
+          · simp [hik] at hk; subst hk
+            exact h9 _ (List.mem_of_getElem? hqk) hf'
   · exact h
 
 /-- `positions[p]` after the `latest` rule of lines 565-568. -/
@@ -141,7 +236,7 @@ theorem pollPart_known (mb : Nat) (rl : Bool) (q : Part) (hk : q.known = true) :
     pollPart mb rl q =
       if lowest rl q < clampHigh mb rl q then
         { q with pos := clampHigh mb rl q,
-                 batches := q.batches ++ [{ lo := lowest rl q, hi := clampHigh mb rl q - 1, done := false }] }
+                 batches := q.batches ++ [{ lo := lowest rl q, hi := clampHigh mb rl q - 1, done := false, failed := false }] }
       else { q with pos := pos1 rl q } := by
   have e1 : (if (rl && q.pos == NONE) = true then q.high else q.pos) = pos1 rl q := by
     simp [pos1]
@@ -160,7 +255,7 @@ theorem wf_poll {mb : Nat} {q : Part} (rl : Bool) (h : WF mb q) : WF mb (pollPar
   | false => rw [pollPart_unknown _ _ _ hk]; exact h
   | true =>
     rw [pollPart_known _ _ _ hk]
-    obtain ⟨h1, h2, h3, h4, h5, h6, h7, h8⟩ := h
+    obtain ⟨h1, h2, h3, h4, h5, h6, h7, h8, h9⟩ := h
     have hp1 : pos1 rl q = NONE ∨ (0 ≤ pos1 rl q ∧ pos1 rl q ≤ q.high) := by
       unfold pos1; split <;> omega
     have hl : lowest rl q = max (pos1 rl q) q.low := rfl
@@ -168,7 +263,13 @@ theorem wf_poll {mb : Nat} {q : Part} (rl : Bool) (h : WF mb q) : WF mb (pollPar
     have hN : NONE = -1001 := rfl
     split
     · rename_i hlt
-      refine ⟨h1, h2, h3, ?_, ?_, ?_, ?_, ?_⟩
+      refine ⟨h1, h2, h3, ?_, ?_, ?_, ?_, ?_, ?_⟩
+      rotate_right
+      · intro b hb hf
+        simp only [List.mem_append, List.mem_singleton] at hb
+        rcases hb with hb | hb
+        · exact h9 b hb hf
+        · subst hb; rfl
       · right; simp only; omega
       · simp [hk]
       · intro r hr
@@ -193,7 +294,26 @@ theorem wf_poll {mb : Nat} {q : Part} (rl : Bool) (h : WF mb q) : WF mb (pollPar
         have hx7 := h7 r hr
         have := h6 r (List.mem_of_getLast? hr)
         have hpos : pos1 rl q = q.pos := by unfold pos1; split <;> omega
-        simp only [hpos]; exact hx7, h8⟩
+        simp only [hpos]; exact hx7, h8, h9⟩
+
+theorem wf_fail {mb : Nat} {q : Part} (i : Nat) (h : WF mb q) : WF mb (failPart i q) := by
+  obtain ⟨h1, h2, h3, h4, h5, h6, h7, h8, h9⟩ := h
+  refine ⟨by rw [fail_low]; exact h1, by rw [fail_low, fail_high]; exact h2,
+    by rw [fail_committed, fail_high]; exact h3, by rw [fail_pos, fail_high]; exact h4, ?_,
+    by rw [fail_ranges, fail_high]; exact h6, by rw [fail_ranges, fail_pos]; exact h7,
+    by rw [fail_ranges, fail_low]; exact h8, ?_⟩
+  · intro hk; rw [fail_known] at hk; rw [fail_nil]; exact h5 hk
+  · intro b' hb' hf'
+    obtain ⟨k, hk⟩ := List.getElem?_of_mem hb'
+    rw [fail_get] at hk
+    cases hqk : q.batches[k]? with
+    | none => rw [hqk] at hk; simp at hk
+    | some bk =>
+      rw [hqk] at hk
+      simp only [Option.map_some, Option.some.injEq] at hk
+      split at hk
+      · rename_i hc; subst hk; exact hc.2
+      · subst hk; exact h9 _ (List.mem_of_getElem? hqk) hf'
 
 theorem wf_localStep {cfg : Cfg} {q : Part} (s : St) (j : Nat) (a : Act) (h : WF cfg.maxBatch q) :
     WF cfg.maxBatch (localStep cfg s j a q) := by
@@ -203,6 +323,7 @@ theorem wf_localStep {cfg : Cfg} {q : Part} (s : St) (j : Nat) (a : Act) (h : WF
   | truncate p k => simp only [localStep]; split; exact wf_trunc k h; exact h
   | poll => simp only [localStep]; split; exact wf_poll _ (wf_discover h); exact wf_poll _ h
   | complete p i => simp only [localStep]; split; exact wf_complete i h; exact h
+  | fail p i => simp only [localStep]; split; exact wf_fail i h; exact h
   | restart => exact wf_restart _ h
 
 /-- Every partition record of the state is well-formed. -/
@@ -477,6 +598,14 @@ theorem first_localStep {cfg : Cfg} {st L1 : Int} {q : Part} (s : St) (j : Nat) 
         · rw [ranges_complete, complete_pos]; exact h1
         · rw [ranges_complete, complete_low]; exact h2
     · exact h
+  | fail p i =>
+    simp only [localStep]; split
+    · rcases h with ⟨h0, h1, h2, h3⟩ | ⟨h0, h1, h2, h3⟩
+      · exact Or.inl ⟨by rw [fail_known]; exact h0, by rw [fail_committed]; exact h1, (fail_nil i q).mpr h2,
+          by rw [fail_low]; exact h3⟩
+      · exact Or.inr ⟨by rw [fail_known]; exact h0, by rw [fail_ranges, fail_pos]; exact h1,
+          by rw [fail_ranges, fail_low]; exact h2, by rw [fail_low]; exact h3⟩
+    · exact h
   | restart => exact absurd rfl ha
 
 
@@ -530,13 +659,23 @@ theorem comminv_localStep {cfg : Cfg} {c0 : Int} {q : Part} (s : St) (j : Nat) (
         · exact Or.inr ⟨_, get_modify_done hb, rfl, rfl⟩
       · exact h
     · exact h
+  | fail p i =>
+    simp only [localStep]; split
+    · rcases h with h | ⟨b, hb, hd, hc⟩
+      · exact Or.inl (by rw [fail_committed]; exact h)
+      · obtain ⟨k, hk⟩ := List.getElem?_of_mem hb
+        refine Or.inr ⟨b, ?_, hd, by rw [fail_committed]; exact hc⟩
+        apply List.mem_of_getElem? (i := k)
+        rw [fail_get, hk]; simp [hd]
+    · exact h
   | restart => exact absurd rfl ha
 
 /-- Step level: whatever changes the committed offset of partition `j` is the completion of a
 batch of `j` that was in flight and not yet done, and the new value is that batch's `hi + 1`. -/
 theorem committed_change (cfg : Cfg) (s : St) (a : Act) (j : Nat) (q q' : Part)
     (hq : s.parts[j]? = some q) (hq' : (step cfg s a).parts[j]? = some q') (hne : q'.committed ≠ q.committed) :
-    ∃ i b, a = .complete j i ∧ q.batches[i]? = some b ∧ b.done = false ∧ q'.committed = b.hi + 1 := by
+    ∃ i b, a = .complete j i ∧ q.batches[i]? = some b ∧ b.done = false ∧ b.failed = false ∧
+      q'.committed = b.hi + 1 := by
   rw [step_get_some cfg s a j q hq] at hq'
   cases hq'
   have hpoll : ∀ rl q0, (pollPart cfg.maxBatch rl q0).committed = q0.committed := by
@@ -565,9 +704,14 @@ theorem committed_change (cfg : Cfg) (s : St) (a : Act) (j : Nat) (q q' : Part)
         split at hne
         · exact absurd rfl hne
         · rename_i hd
-          refine ⟨i, b, rfl, hb, by simpa using hd, ?_⟩
-          simp [hd]
+          have hd' : b.done = false ∧ b.failed = false := by simpa using hd
+          refine ⟨i, b, rfl, hb, hd'.1, hd'.2, ?_⟩
+          simp [hd'.1, hd'.2]
       · exact absurd rfl hne
+    · exact absurd rfl hne
+  | fail p i =>
+    simp only [localStep] at hne; split at hne
+    · rw [fail_committed] at hne; exact absurd rfl hne
     · exact absurd rfl hne
   | restart => simp [localStep, restartPart] at hne
 
@@ -610,7 +754,7 @@ theorem seg_poll {mb : Nat} {rl : Bool} {L : Int} {q : Part} (hw : WF mb q) (h :
           subst hr0
           simp [Part.ranges, hb, rng, Tiles]
         | cons x xs =>
-          have e : ({ q with pos := clampHigh mb rl q, batches := q.batches ++ [{ lo := lowest rl q, hi := clampHigh mb rl q - 1, done := false }] } : Part).ranges
+          have e : ({ q with pos := clampHigh mb rl q, batches := q.batches ++ [{ lo := lowest rl q, hi := clampHigh mb rl q - 1, done := false, failed := false }] } : Part).ranges
               = q.ranges ++ [(lowest rl q, clampHigh mb rl q - 1)] := by simp [Part.ranges, rng]
           rw [e] at hr0 ⊢
           rw [hr] at hr0
@@ -678,6 +822,11 @@ theorem seg_localStep {cfg : Cfg} {L : Int} {q : Part} (s : St) (j : Nat) (a : A
           right; simp only; omega
       · exact h.comm
     · exact h
+  | fail p i =>
+    simp only [localStep]; split
+    · exact ⟨by rw [fail_low]; exact h.low, by rw [fail_pos]; exact h.pos, by rw [fail_committed]; exact h.comm,
+        by rw [fail_ranges]; exact h.ge, by rw [fail_ranges, fail_pos]; exact h.tiles⟩
+    · exact h
   | restart => exact absurd rfl ha
 
 
@@ -733,7 +882,8 @@ theorem alo_complete {c0 : Int} {q : Part} (i : Nat)
   · rename_i b hb
     split
     · exact h
-    · rename_i hnd
+    · rename_i hnd0
+      have hnd : ¬ b.done = true := fun hx => hnd0 (by simp [hx])
       obtain ⟨_, n, hn, hd, h0, hm⟩ := h
       have hilt : i < q.batches.length := (List.getElem?_eq_some_iff.mp hb).1
       -- the completed batch is the first one that is not done
@@ -748,9 +898,8 @@ theorem alo_complete {c0 : Int} {q : Part} (i : Nat)
       subst hin
       refine ⟨?_, i + 1, (by simp; omega), ?_, (fun h => absurd h (by omega)), ?_⟩
       · intro he
-        have : (q.batches.modify i fun b => { lo := b.lo, hi := b.hi, done := true }).length = 0 := by
-          simp only at he; rw [he]; rfl
-        rw [List.length_modify] at this; omega
+        have := congrArg List.length he
+        simp only [List.length_modify, List.length_nil] at this; omega
       · intro k b' hb'
         simp only [List.getElem?_modify] at hb'
         cases hqk : q.batches[k]? with
@@ -770,6 +919,16 @@ theorem alo_complete {c0 : Int} {q : Part} (i : Nat)
         subst hr; rfl
   · exact h
 
+theorem alo_fail {c0 : Int} {q : Part} (i : Nat) (h : ALO c0 q) : ALO c0 (failPart i q) := by
+  obtain ⟨h1, n, hn, hd, h0, hm⟩ := h
+  refine ⟨fun he => by rw [fail_committed]; exact h1 ((fail_nil i q).mp he), n,
+    by rw [fail_length]; exact hn, ?_, fun hz => by rw [fail_committed]; exact h0 hz, ?_⟩
+  · intro k b' hb'
+    obtain ⟨b, hb, _, _, hdn⟩ := fail_get_some hb'
+    rw [hdn]; exact hd k b hb
+  · intro m r hnm hr
+    rw [fail_ranges] at hr; rw [fail_committed]; exact hm m r hnm hr
+
 theorem alo_localStep {cfg : Cfg} {c0 : Int} {q : Part} (s : St) (j : Nat) (a : Act)
     (hq : s.parts[j]? = some q) (ha : a ≠ .restart) (hord : okInOrder s a)
     (h : ALO c0 q) : ALO c0 (localStep cfg s j a q) := by
@@ -786,6 +945,7 @@ theorem alo_localStep {cfg : Cfg} {c0 : Int} {q : Part} (s : St) (j : Nat) (a : 
     · rename_i hp; subst hp
       exact alo_complete i (fun k b hk hb => hord q hq k b hk hb) h
     · exact h
+  | fail p i => simp only [localStep]; split; exact alo_fail i h; exact h
   | restart => exact absurd rfl ha
 
 /-- What `ALO` buys: an offset at or after the start of the first range that is below the
@@ -901,7 +1061,7 @@ theorem red_pollK {cfg : Cfg} {c L H0 : Int} {k : Nat} {rl : Bool} {q : Part} (h
     · rename_i hlt
       refine ⟨r1, r2, r3, by simp [hk], fun _ he => absurd he (by simp), ?_⟩
       intro r0 hr0
-      have e : ({ q with pos := clampHigh cfg.maxBatch rl q, batches := q.batches ++ [{ lo := lowest rl q, hi := clampHigh cfg.maxBatch rl q - 1, done := false }] } : Part).ranges
+      have e : ({ q with pos := clampHigh cfg.maxBatch rl q, batches := q.batches ++ [{ lo := lowest rl q, hi := clampHigh cfg.maxBatch rl q - 1, done := false, failed := false }] } : Part).ranges
           = q.ranges ++ [(lowest rl q, clampHigh cfg.maxBatch rl q - 1)] := by simp [Part.ranges, rng]
       rw [e] at hr0 ⊢
       rw [hr] at hr0; simp at hr0; subst hr0
@@ -971,6 +1131,16 @@ theorem red_localStep {cfg : Cfg} {c L H0 : Int} {k : Nat} {q : Part} (hmb : 0 <
           rw [ranges_complete] at this
           simp [Part.ranges, hb] at this
         · rw [ranges_complete, complete_pos]; exact h.tiles
+    · exact h
+  | fail p i =>
+    simp only [localStep, isPoll, Nat.add_zero, reduceCtorEq, ↓reduceIte]; split
+    · refine ⟨by rw [fail_low]; exact h.low, h.lc, by rw [fail_high]; exact h.h0, ?_, ?_,
+        by rw [fail_ranges, fail_pos]; exact h.tiles⟩
+      · intro hk; rw [fail_known] at hk
+        obtain ⟨a1, a2, a3, a4⟩ := h.unk hk
+        exact ⟨a1, a2, (fail_nil i q).mpr a3, by rw [fail_committed]; exact a4⟩
+      · intro hk he; rw [fail_known] at hk; rw [fail_pos]
+        exact h.empty hk ((fail_nil i q).mp he)
     · exact h
   | restart => exact absurd rfl ha
 
